@@ -89,7 +89,11 @@ def gen(tp, feat, tier='quick'):
         n_st = 2 + tp.draw(10 if big else 7)
         body = [['rec']]
         for _ in range(n_st):
-            body.append(_gen_stmt(tp, feat, r, routines, n_clocks))
+            st = _gen_stmt(tp, feat, r, routines, n_clocks)
+            if st[0] == 'multi':
+                body.extend(st[1])
+            else:
+                body.append(st)
         for c in kids:
             if tp.draw(3) == 0:
                 st = ['spawnd', c, tp.choice(DELTAS)]   # clock.sched(d, r)
@@ -189,7 +193,15 @@ def _gen_stmt19(tp, feat, r, routines, n_clocks):
         t = (t + 1) % len(routines)
     if t == r or t == 0:
         return ['wait', tp.choice(DELTAS)]
-    return [['pause', 'resume', 'resume', 'stop'][k], t]
+    if tp.draw(4) == 0:
+        # paused and resumed before its pending wake-up, onto some clock
+        return ['multi', [['pause', t], ['resume', t, tp.choice(
+            ['sys'] + [f't{i}' for i in range(n_clocks)])]]]
+    st = [['pause', 'resume', 'resume', 'stop'][k], t]
+    if st[0] == 'resume' and tp.draw(3) == 0:
+        # resume onto an explicitly given clock (possibly another one)
+        st.append(tp.choice(['sys'] + [f't{i}' for i in range(n_clocks)]))
+    return st
 
 
 def _gen_lat(tp):
@@ -426,7 +438,10 @@ class Interp:
             if t is not None:
                 info = {'pre': t.state.name, 'exc': None}
                 try:
-                    getattr(t, op)()
+                    if op == 'resume' and len(st) > 2:
+                        t.resume(self.clocks[st[2]])   # onto another clock
+                    else:
+                        getattr(t, op)()
                 except Exception as e:
                     info['exc'] = type(e).__name__
                 info['post'] = t.state.name
